@@ -102,6 +102,7 @@ Family.worker_extra = lambda self, spec, info, ob: None
 Family.cross = True
 Family.cross_prepare = lambda self, spec, info: info
 Family.cross_extra = lambda self, spec, info, ob: None
+Family.shrink_steps = lambda self, case: []      # simpler variants of a failing case (layfamily.shrink tries them)
 Family.labels = lambda self, o: []        # extra input-distribution labels of one worker result (→ res.count)
 
 
@@ -253,6 +254,17 @@ def shrink(fam: Family, case, known_fn=None, budget=40):
         cand = _drop_component(cur, key)
         if fails(cand):
             cur = cand
+    # family-specific simplifications (e.g. an edge column name put back to its sentinel name), one at a time
+    progress = True
+    while progress and tries < budget:
+        progress = False
+        for cand in fam.shrink_steps(cur):
+            if tries >= budget:
+                break
+            tries += 1
+            if fails(cand):
+                cur, progress = cand, True
+                break
     return cur
 
 
